@@ -421,9 +421,19 @@ func c11WriteValues(c *fw.Ctx) {
 			model.Var("n", model.Arr(model.Arr(num(7)), model.Arr(num(8)))),
 			model.Fun("idf", []string{"x"}, model.Return(id("x"))),
 			model.Var("r", model.Nil()),
+			model.Var("cnt", num(0)), model.Var("k", num(0)),
+			model.Fun("nx", nil, model.ExprS(model.Asg("cnt", model.Bin("+", id("cnt"), num(1)))), model.Print(model.Bin("+", model.Str("nx "), id("cnt"))), model.Return(model.Bin("-", id("cnt"), num(1)))),
+			model.Fun("pick", nil, model.Print(model.Str("pick")), model.Return(id("a"))),
 		}
 	}
 	targets := []func(v *model.N) *model.N{
+		// index and array expressions with side effects: evaluated exactly once per write
+		func(v *model.N) *model.N { return model.IAsg(id("a"), model.CallN("nx"), v) },
+		func(v *model.N) *model.N { return model.IAsg(id("a"), model.Grp(model.Asg("k", model.Bin("+", id("k"), num(1)))), v) },
+		func(v *model.N) *model.N { return model.IAsg(model.CallN("pick"), num(2), v) },
+		func(v *model.N) *model.N {
+			return model.IAsg(id("a"), model.Grp(model.IAsg(id("b"), num(0), model.Bin("-", model.Idx(id("b"), num(0)), num(3)))), v)
+		},
 		func(v *model.N) *model.N { return model.IAsg(id("a"), num(1), v) },
 		func(v *model.N) *model.N { return model.IAsg(id("b"), num(0), v) },
 		func(v *model.N) *model.N { return model.IAsg(model.Idx(id("n"), num(1)), num(0), v) },
@@ -471,7 +481,7 @@ func c11WriteValues(c *fw.Ctx) {
 					continue
 				}
 				prog := append(pre(), u.mk(t(v()))...)
-				prog = append(prog, model.Print(id("a")), model.Print(id("b")), model.Print(id("n")), model.Print(model.CallN(model.BiLen, id("a"))))
+				prog = append(prog, model.Print(id("a")), model.Print(id("b")), model.Print(id("n")), model.Print(model.CallN(model.BiLen, id("a"))), model.Print(model.Arr(id("cnt"), id("k"))))
 				judge(c, prog, judgeOpts{SigPrefix: fmt.Sprintf("write-value|%s|target%d|value%d", u.name, ti, vi)})
 				c.R.States++
 				c.R.Transitions++
